@@ -3,6 +3,7 @@ package main
 import (
 	"fmt"
 	"strings"
+	"time"
 
 	"github.com/TarsCloud/TarsGo/tars/util/endpoint"
 )
@@ -314,6 +315,7 @@ type cfgViolation struct {
 type cfgResult struct {
 	states, edges, replays, evals, nontrivial int64
 	closed                                    bool // the frontier ran empty before the depth bound
+	truncated                                 bool // stopped by the time budget
 	depthReached                              int
 	viol                                      map[string]*cfgViolation
 	violOrder                                 []string
@@ -352,7 +354,7 @@ func replay(cfg *Config, tab []endpoint.Endpoint, hist []Op) (*subject, *panicIn
 	return s, nil, -1
 }
 
-func explore(cfg *Config, idx int) *cfgResult {
+func explore(cfg *Config, idx int, deadline time.Time) *cfgResult {
 	res := &cfgResult{viol: map[string]*cfgViolation{}}
 	tab := cfg.table()
 	ops := alphabet(cfg)
@@ -402,6 +404,10 @@ func explore(cfg *Config, idx int) *cfgResult {
 		if nd.depth >= cfg.Depth {
 			res.closed = false
 			continue
+		}
+		if time.Now().After(deadline) { // a search that does not close (defect / mutant) must not run away
+			res.closed, res.truncated = false, true
+			break
 		}
 		for _, op := range ops {
 			s, pi, at := replay(cfg, tab, nd.hist)
